@@ -34,6 +34,9 @@ def canon(x):
     return x
 
 ENTRIES = {}
+ZI = True     # index convention used by every entry below (C13's index-shift check runs the entries under both)
+def zi():
+    return ZI
 def entry(name, uses_profile=True):
     def deco(f):
         ENTRIES[name] = (f, uses_profile); return f
@@ -50,10 +53,10 @@ def _voting(rule, method):
         from socialchoicekit.profile_utils import StrictCompleteProfile, CompleteProfile
         A = prof(case)
         def th(args):
-            if rule == "KApproval": r = DS.KApproval(case["k"], "accept", True)
-            elif rule == "Copeland": r = DT.Copeland("accept", True)
-            elif rule == "STV": r = DM.SingleTransferableVote("first", True)
-            else: r = getattr(DS, rule)("accept", True)
+            if rule == "KApproval": r = DS.KApproval(case["k"], "accept", zi())
+            elif rule == "Copeland": r = DT.Copeland("accept", zi())
+            elif rule == "STV": r = DM.SingleTransferableVote("first", zi())
+            else: r = getattr(DS, rule)("accept", zi())
             p = CompleteProfile.of(args[0]) if rule == "STV" else StrictCompleteProfile.of(args[0])
             return getattr(r, method)(p)
         return [A], th
@@ -70,7 +73,7 @@ def _rand(rule):
         A = prof(case)
         def th(args):
             np.random.seed(case["seed"])
-            r = RS.RandomizedKApproval(case["k"], True) if rule == "RandomizedKApproval" else getattr(RS, rule)(True)
+            r = RS.RandomizedKApproval(case["k"], zi()) if rule == "RandomizedKApproval" else getattr(RS, rule)(zi())
             return r.scf(StrictCompleteProfile.of(args[0]))
         return [A], th
     return f
@@ -82,7 +85,7 @@ def _(case):
     from socialchoicekit.deterministic_scoring import SocialWelfare
     from socialchoicekit.profile_utils import ValuationProfile
     V = np.array(case["V"], dtype=float)
-    return [V], lambda a: SocialWelfare("accept", True).scf(ValuationProfile.of(a[0]))
+    return [V], lambda a: SocialWelfare("accept", zi()).scf(ValuationProfile.of(a[0]))
 
 @entry("distortion", False)
 def _(case):
@@ -96,7 +99,7 @@ def _(case):
     from socialchoicekit.deterministic_matching import GaleShapley
     from socialchoicekit.profile_utils import StrictProfile
     R, H = prof(case, "SQ1"), prof(case, "SQ2"); c = np.ones(R.shape[0], dtype=int) * 1
-    return [R, H, c], lambda a: sorted(GaleShapley(case["seed"] % 2 == 0, True).scf(StrictProfile.of(a[0]), StrictProfile.of(a[1]), a[2]))
+    return [R, H, c], lambda a: sorted(GaleShapley(case["seed"] % 2 == 0, zi()).scf(StrictProfile.of(a[0]), StrictProfile.of(a[1]), a[2]))
 
 @entry("Irving.scf")
 def _(case):
@@ -104,7 +107,7 @@ def _(case):
     from socialchoicekit.profile_utils import StrictCompleteProfile, IntegerValuationProfile
     P1, P2 = prof(case, "SQ1"), prof(case, "SQ2"); n = P1.shape[0]
     V1 = (n - np.array(case["SQ1"])).astype(np.int64); V2 = (n - np.array(case["SQ2"])).astype(np.int64)
-    return [V1, V2, P1, P2], lambda a: sorted(Irving(True).scf(IntegerValuationProfile.of(a[0]), IntegerValuationProfile.of(a[1]), StrictCompleteProfile.of(a[2]), StrictCompleteProfile.of(a[3])))
+    return [V1, V2, P1, P2], lambda a: sorted(Irving(zi()).scf(IntegerValuationProfile.of(a[0]), IntegerValuationProfile.of(a[1]), StrictCompleteProfile.of(a[2]), StrictCompleteProfile.of(a[3])))
 
 @entry("Irving.stages")
 def _(case):
@@ -128,7 +131,7 @@ def _(case):
     from socialchoicekit.deterministic_allocation import MaximumWeightMatching
     from socialchoicekit.profile_utils import ValuationProfile
     V = np.array(case["VSQ"], dtype=float)
-    return [V], lambda a: MaximumWeightMatching(True).scf(ValuationProfile.of(a[0]))
+    return [V], lambda a: MaximumWeightMatching(zi()).scf(ValuationProfile.of(a[0]))
 
 @entry("root_n_serial_dictatorship")
 def _(case):
@@ -141,7 +144,7 @@ def _(case):
     from socialchoicekit.randomized_allocation import RandomSerialDictatorship
     from socialchoicekit.profile_utils import StrictProfile
     def th(a):
-        np.random.seed(case["seed"]); return RandomSerialDictatorship(True).scf(StrictProfile.of(a[0]))
+        np.random.seed(case["seed"]); return RandomSerialDictatorship(zi()).scf(StrictProfile.of(a[0]))
     return [prof(case)], th
 
 def _eat(which):
@@ -151,10 +154,10 @@ def _eat(which):
         A = prof(case, "SQ1"); sp = np.array(case["speeds"], dtype=float)
         def th(a):
             np.random.seed(case["seed"])
-            if which == "se.b": return SimultaneousEating(True).bistochastic(StrictCompleteProfile.of(a[0]), a[1])
-            if which == "se.s": return SimultaneousEating(True).scf(StrictCompleteProfile.of(a[0]), a[1])
-            if which == "ps.b": return ProbabilisticSerial(True).bistochastic(StrictCompleteProfile.of(a[0]))
-            return ProbabilisticSerial(True).scf(StrictCompleteProfile.of(a[0]))
+            if which == "se.b": return SimultaneousEating(zi()).bistochastic(StrictCompleteProfile.of(a[0]), a[1])
+            if which == "se.s": return SimultaneousEating(zi()).scf(StrictCompleteProfile.of(a[0]), a[1])
+            if which == "ps.b": return ProbabilisticSerial(zi()).bistochastic(StrictCompleteProfile.of(a[0]))
+            return ProbabilisticSerial(zi()).scf(StrictCompleteProfile.of(a[0]))
         return [A, sp], th
     return f
 ENTRIES["SimultaneousEating.bistochastic"] = (_eat("se.b"), True)
@@ -200,13 +203,13 @@ def _elic(rule):
                 V1 = np.array(case["ISQ1"], dtype=np.int64); V2 = np.array(case["ISQ2"], dtype=np.int64)
                 e1 = IntegerValuationProfileElicitor(IntegerValuationProfile.of(V1)); e2 = IntegerValuationProfileElicitor(IntegerValuationProfile.of(V2))
                 B = prof(case, "SQ2")
-                return sorted(DoubleLambdaTSF(case["lam"], case["lam"], True).scf(StrictCompleteProfile.of(a[0]), StrictCompleteProfile.of(B), e1, e2))
+                return sorted(DoubleLambdaTSF(case["lam"], case["lam"], zi()).scf(StrictCompleteProfile.of(a[0]), StrictCompleteProfile.of(B), e1, e2))
             Vn = np.array(V, dtype=float); el = ValuationProfileElicitor(ValuationProfile.of(Vn))
             p = StrictCompleteProfile.of(a[0])
-            if rule == "KARV": return [KARV(case["lam"], "accept", True).get_simulated_cardinal_profile(p, el), KARV(case["lam"], "accept", True).scf(p, el)]
-            if rule == "PRV": return [LambdaPRV(case["lam"], "accept", True).score(p, el), LambdaPRV(case["lam"], "accept", True).scf(p, el)]
-            if rule == "TSF": return [LambdaTSF(case["lam"], True).get_simulated_cardinal_profile(p, el), LambdaTSF(case["lam"], True).scf(p, el)]
-            return [MatchTwoQueries(True).get_simulated_cardinal_profile(p, el), MatchTwoQueries(True).scf(p, el)]
+            if rule == "KARV": return [KARV(case["lam"], "accept", zi()).get_simulated_cardinal_profile(p, el), KARV(case["lam"], "accept", zi()).scf(p, el)]
+            if rule == "PRV": return [LambdaPRV(case["lam"], "accept", zi()).score(p, el), LambdaPRV(case["lam"], "accept", zi()).scf(p, el)]
+            if rule == "TSF": return [LambdaTSF(case["lam"], zi()).get_simulated_cardinal_profile(p, el), LambdaTSF(case["lam"], zi()).scf(p, el)]
+            return [MatchTwoQueries(zi()).get_simulated_cardinal_profile(p, el), MatchTwoQueries(zi()).scf(p, el)]
         return [A], th
     return f
 for _r, _n in [("KARV", "KARV"), ("PRV", "LambdaPRV"), ("TSF", "LambdaTSF"), ("M2Q", "MatchTwoQueries"), ("Double", "DoubleLambdaTSF")]:
